@@ -36,7 +36,7 @@ for ((w=0; w<NWORK; w++)); do
     fi
     bad=$(( bad + 1 ))
     what=$(grep -m1 -E "Undefined Behavior|Data race|deadlock|FREE-THREADED-MISMATCH|unsupported operation" "$log" | cut -c1-200 | tr -d '"')
-    mseed=$(grep -m1 -o "seed [0-9]*" "$log" | awk '{print $2}'); mseed=${mseed:-0}
+    mseed=$(grep -m1 -o "FAILING SEED: [0-9]*" "$log" | awk '{print $3}'); mseed=${mseed:-0}
     mkdir -p "$HERE/replays"
     rp="$HERE/replays/C20-miri-$ws-$mseed.json"
     printf '{"property":"C20","engine":"miri","workload_seed":%s,"miri_seed":%s,"what":"%s","replay_cmd":"./miri.sh replay %s %s"}\n' "$ws" "$mseed" "$what" "$ws" "$mseed" > "$rp"
